@@ -52,7 +52,7 @@ def build(tier):
                 qs.append(Query(name="bstream_step_nb%d_seg%d.%d_o%d_c%d" % (nb, a, b, o, c), harness="C18_bstream.c",
                                 defines=["NB=%d" % nb, "MODE_STEP", "SEG0=%d" % a, "SEG1=%d" % b, "OFF_O=%d" % o, "OFF_C=%d" % c],
                                 unwind=6, unwindset=UW, shims=SHIMS, leak=True, timeout=280,
-                                witness=(c >= 1 and c < nb), replay_witness=(a, b, o, c) == (1, 1, 0, 1),
+                                witness=(c >= 1 and c < nb and o < c), replay_witness=(a, b, o, c) == (1, 1, 0, 1),
                                 sample={"mode": "step: any Inv state + one field", "octets": nb, "segments": [a, b, nb - a - b],
                                         "init_offset": o, "octets_consumed": c, "cached_bits": "symbolic 0..31",
                                         "width": "symbolic 1..24"} if (a, b, o, c) == (1, 1, 0, 1) else None))
